@@ -485,6 +485,21 @@ static void op_rmtree_h(Exec& x, const Json& op, int)
 	x.sb.remove_path(rel);
 }
 
+// everything on a data disk goes (a replaced or wiped disk): files, links, directories; content copies stay
+static void op_empty_disk_h(Exec& x, const Json& op, int)
+{
+	std::string top = x.disk_top(op.num("d"));
+	Snap s = x.sb.snapshot({ top });
+	for (auto it = s.rbegin(); it != s.rend(); ++it) {
+		const std::string& rel = it->first;
+		if (rel == top) continue;
+		bool keep = false;
+		for (auto& c : x.sb.cfg.content) if (rel == c || starts_with(rel, c + ".") || starts_with(c, rel + "/")) keep = true;
+		if (!keep) x.sb.remove_path(rel);
+	}
+	x.probe("disk_emptied");
+}
+
 static void op_clock_h(Exec& x, const Json& op, int)
 {
 	x.sb.advance_clock(op.num("adv"));
@@ -493,7 +508,11 @@ static void op_clock_h(Exec& x, const Json& op, int)
 static void op_cmd_h(Exec& x, const Json& op, int)
 {
 	CmdSpec s = CmdSpec::from_json(op.at("spec"));
+	// a workload that has damaged data on purpose (silent corruption ops) asks for the parity/hash oracles to stay out of it
+	bool saved = x.check_parity_every_cmd;
+	if (op.num("no_parity_oracle")) x.check_parity_every_cmd = false;
 	CmdResult r = x.cmd(s);
+	x.check_parity_every_cmd = saved;
 	std::string expect = op.str("expect", "any");
 	if (expect == "ok" && r.exit_code != 0 && !r.harness_error)
 		x.violation(op.str("prop", "H"), "unexpected-failure", s.cmd + strf(" exit=%d sig=%d: ", r.exit_code, r.term_sig) + r.err.substr(0, 400));
@@ -533,6 +552,7 @@ static struct RegisterGeneric {
 		Exec::register_op("hardlink", op_hardlink_h);
 		Exec::register_op("mkdir", op_mkdir_h);
 		Exec::register_op("rmtree", op_rmtree_h);
+		Exec::register_op("empty_disk", op_empty_disk_h);
 		Exec::register_op("clock", op_clock_h);
 		Exec::register_op("cmd", op_cmd_h);
 		Exec::register_op("mark_synced", op_mark_synced_h);
@@ -698,6 +718,28 @@ std::vector<Json> gen_idiom(Rng& rng, const Config& cfg, int tag)
 {
 	std::vector<Json> v;
 	unsigned bs = cfg.block_size();
+	if (cfg.disks.size() >= 2 && rng.chance(1, 6)) {
+		// a whole disk is emptied (its file reaching past the data of the other disks), and the sync that records it stops early
+		int64_t d = (int64_t)rng.below(cfg.disks.size());
+		std::string name = strf("idiom%d/big", tag);
+		v.push_back(Json::obj().set("k", "create").set("d", d).set("name", name).set("size", rng.range(3, 12) * bs + (rng.chance(1, 2) ? 0 : rng.range(1, bs - 1))).set("seed", rng.next() >> 1));
+		CmdSpec s;
+		s.cmd = "sync";
+		s.opts = { "-E", "-Z" };
+		v.push_back(op_cmd(gen_sched(rng, s)));
+		v.push_back(Json::obj().set("k", "empty_disk").set("d", d));
+		CmdSpec k;
+		k.cmd = "sync";
+		k.opts = { "-E", "-Z" };
+		switch (rng.below(4)) {
+		case 0: k.opts.push_back("-B"); k.opts.push_back(strf("%d", (int)rng.range(1, 3))); k.opts.push_back("--test-kill-after-sync"); break;
+		case 1: case 2: k.opts.push_back("-B"); k.opts.push_back(strf("%d", (int)rng.range(1, 4))); break;
+		default: k.sig_at_io = (unsigned)rng.range(1, 6); k.sig_no = 2; break;
+		}
+		v.push_back(op_cmd(gen_sched(rng, k)));
+		if (rng.chance(1, 2)) v.push_back(op_cmd(gen_sched(rng, s)));
+		return v;
+	}
 	if (rng.chance(1, 3)) {
 		// a deletion (or replacement) half processed by a sync that did not get to save its final state, then undone by the user
 		int64_t d = (int64_t)rng.below(cfg.disks.size());
